@@ -101,6 +101,7 @@ class TriggerHandler:
         self._config.add_listener(TracepointHandlerUpdateListener(self))
         self._callbacks: ThreadLocal[Deque[CallbackContext]] = ThreadLocal(lambda: deque())
         self.__unwinding = threading.local()
+        self.__config_lock = threading.Lock()
 
     def start(self):
         """Start the trigger handler."""
@@ -132,8 +133,13 @@ class TriggerHandler:
 
         :param new_config: the new config to use
         """
+        with self.__config_lock:
+            self.__install_config(new_config)
+
+    def __install_config(self, new_config: List['Trigger']):
         if self.__stopped:
             # an update that was still on its way when we were shut down: a stopped handler takes no further actions
+            # (checked and installed under one lock: shutdown() can run on another thread at any moment)
             return
         # every new config from the service is built from scratch: a tracepoint that is unchanged in it stays
         # installed, so it keeps its fire count and last fire time (else fire_count=1 fires again whenever any
@@ -302,8 +308,9 @@ class TriggerHandler:
         Reset the settrace to the previous values.
         """
         # threads that already use our trace function keep it, so make sure it has nothing left to act on
-        self.__stopped = True
-        self._tp_config = []
+        with self.__config_lock:
+            self.__stopped = True
+            self._tp_config = []
         # only put back the previous values if we did replace them (we do not when NO_TRACE is set)
         if not self.__trace_installed:
             return
